@@ -8,7 +8,7 @@ occurrence; the temporaries of the segment are the stand-alone ones shifted by t
 equals a freshly declared one; (c) the whole program executed on sampled inputs equals the chained dense
 evaluation, every intermediate bound under its declared/rank-order name."""
 import copy, json, random, re
-import common, pool, specs, gens, c02
+import common, pool, specs, gens, c02, semcheck
 
 
 def canon_tmps(text):
@@ -60,7 +60,8 @@ def run(ctx):
                 "(a convolution followed by an Einsum re-using its index names plainly, optionally partitioned); each: prefix/"
                 "segment/stand-alone text differential, cursor states after every Einsum, execution on 2 random inputs vs chained dense evaluation; non-trivial = cascade in which a later "
                 "Einsum reads an earlier result; distinct = distinct text")
-    ctx.trusted = ["Lean kernel; Props/C05 (shared-state level)", "equality of the emitted statements is observed on the real compiler (sampled cascades), not derived from a model of the emitters",
+    ctx.trusted = ["Lean kernel; Props/C05Sem (cascade_correct: the cascade of nests computes the composition of the Einsums' meanings, all tensors, all points, all inputs) and Props/C05 (shared-state level)",
+                   "model cascade = real emitted program is sampled: every Einsum's output tensor on the sampled input; CascadeOK decided in Lean per sample", "equality of the emitted statements is observed on the real compiler (sampled cascades), not derived from a model of the emitters",
                    "composition of results is decided by execution on sampled inputs (minifiber) against the chained dense oracle"]
     rng = random.Random(ctx.seed * 8191 + 5)
     k = 1 if ctx.tier == "quick" else 8
@@ -120,6 +121,91 @@ def run(ctx):
             ctx.violation(dict(kind="tmp-model", yaml=d, einsum_index=i, model=a["issued"], implementation=nums,
                                obligation="C05.issued (temporary counter model) = temporaries of the segment"), False)
     c02.check_records(ctx, [r for r in recs if r["ok"]], need_reference=False)
+    check_model(ctx, recs)
+
+
+def cascade_request(case, rec, ex):
+    """cascade whose members are unpartitioned sums of products: the request for the Lean model cascade (Props/C05Sem)"""
+    import c01
+    d = rec["yaml"]
+    parts_all = (d.get("mapping") or {}).get("partitioning") or {}
+    if any(not all(str(x).startswith(("uniform_shape", "nway_shape")) for x in st) for ps in parts_all.values() for st in ps.values()):
+        return None
+    lo_all = pool.loop_ranks(d) or {}
+    eins = []
+    for e in case["eins"]:
+        terms = []
+        for t in e["terms"]:
+            if t["kind"] != "times":
+                return None
+            scal, tensors = 1, []
+            for f in t["factors"]:
+                if f[0] == "s":
+                    scal *= case["env"][f[1]]
+                else:
+                    if any(len(idx) != 1 or idx[0][0] != 1 for idx in f[2]):
+                        return None                        # index math: not in this model
+                    tensors.append({"name": f[1], "ranks": [idx[0][1].upper() for idx in f[2]]})
+            terms.append({"kind": "times", "sel": 0, "scal": scal, "tensors": tensors})
+        lo = ((d.get("mapping") or {}).get("loop-order") or {}).get(e["out"]) or lo_all.get(e["out"])
+        if lo is None:
+            return None
+        # a shape-partitioned member computes what the unpartitioned member computes (C02.model_partitioned): the model cascade
+        # runs the member over its unpartitioned ranks, in the order their top levels are looped
+        roots = []
+        for r in lo:
+            cands = [x for x in case["ext"] if r == x or (r.startswith(x) and r[len(x):].isdigit())]
+            root = r if r in case["ext"] else max(cands, key=len)
+            if root not in roots:
+                roots.append(root)
+        lo = roots
+        eins.append({"loop": list(lo), "exts": [case["ext"][r] for r in lo], "out_name": e["out"], "out_ranks": list(case["decl"][e["out"]]), "terms": terms})
+    inputs = [{"name": k, "pts": [[list(p), v] for p, v in sorted((tuple(p), v) for p, v in pts)]} for k, pts in ex["inputs"].items()]
+    return {"op": "cascade", "einsums": eins, "inputs": inputs}
+
+
+def check_model(ctx, recs):
+    """tie of C05.cascade_correct: the model cascade (each nest leaves its result under the declared name and rank order, later
+    nests read it there) produces, for EVERY Einsum of the specification, the tensor the real emitted program produces on the
+    sampled input; the theorem's hypotheses (CascadeOK) are decided in Lean per sample"""
+    import c01
+    reqs, metas = [], []
+    for r in recs:
+        if not r["ok"] or r["case"] is None:
+            continue
+        for ex in r["execs"][:1]:
+            if not ex.get("ok"):
+                continue
+            q = cascade_request(r["case"], r, ex)
+            if q is None:
+                ctx.stat("cascade_model_not_applicable"); continue
+            reqs.append(q); metas.append((r, r["case"], ex))
+    for (r, case, ex), a in zip(metas, common.lean_batch(reqs)):
+        if "error" in a:
+            raise common.InternalError("lean: " + a["error"])
+        ctx.stat("cascade_model_samples")
+        model = {o["name"]: c01.pts_set(o["pts"]) for o in a["outputs"]}
+        real = {e["out"]: c01.pts_set(ex["outputs"].get(e["out"], [])) for e in case["eins"]}
+        oracle = {k: c01.pts_set([[list(p), v] for p, v in x.items()]) for k, x in
+                  gens.oracle_cascade(case, {k: {tuple(p): v for p, v in x} for k, x in ex["inputs"].items()}).items() if k in real}
+        ok_h = bool(a["hyps_ok"])
+        ok_model = model == real
+        ok_thm = (model == oracle) or not ok_h
+        ctx.ob(ok_h); ctx.ob(ok_model); ctx.ob(ok_thm)
+        if ok_h:
+            ctx.stat("cascade_model_hypotheses_hold")
+        if ok_h and ok_model and ok_thm:
+            continue
+        rep = dict(semcheck.base_replay(r, case, ex), model=model, real=real, oracle=oracle, hyps_ok=a["hyps_ok"])
+        if not ok_h:
+            ctx.violation(dict(rep, kind="model-hypotheses", obligation="C05.CascadeOK decided on the sampled cascade and input",
+                               reason="the hypotheses of C05.cascade_correct do not hold for this generated cascade"), False)
+        elif not ok_thm:
+            ctx.violation(dict(rep, kind="model-semantics", obligation="C05.cascade_correct", reason="model cascade and chained dense evaluation differ although CascadeOK holds"), False)
+        else:
+            verdict_ok, reason, sig = semcheck.verdict(case, ex)
+            ctx.violation(dict(rep, kind="model-correspondence", obligation="model cascade (C05.cascade_correct) = real emitted program: every Einsum's output tensor",
+                               reason="an intermediate or final tensor of the emitted cascade differs from the model cascade's"), not verdict_ok)
 
 
 def replay(ctx, path):
